@@ -133,7 +133,8 @@ PROPS["C20"] = {
 
 PROPS["C14"] = {
     "title": "Target files decode to exactly the targets they describe, independently",
-    "units": [{"name": "targets", "pkg": "lib", "run": "^TestC14"}],
+    "units": [{"name": "targets", "pkg": "lib", "run": "^TestC14"},
+              {"name": "cli", "pkg": "main", "run": "^TestC14", "shards_quick": 2, "shards_thorough": 8}],
     "rule": "rapid draws an abstract target list (1..50 targets: [A-Z]+ methods, absolute URLs, 0..8 headers with "
             "arbitrary key case, repeated keys and keys shared with the defaults, values with ':' and inner blanks, "
             "optional body files incl. empty) plus default headers built by append with 0..3 spare capacity and a "
